@@ -770,6 +770,23 @@ pub fn run(ctx: &mut Ctx) -> (&'static str, String, bool) {
             ctx.merge(p);
         }
     }
+    // ---- 10. a character, one from another codepage, the first again (and variations): what was remembered about a
+    //          character before a codepage switch must not be used after it -----------------------------------------
+    {
+        let mut p = Part::new();
+        let reps: Vec<char> = "éøşāžěλжあﾏ美한中們们".chars().collect();
+        for a in &reps {
+            for b in &reps {
+                if a == b {
+                    continue;
+                }
+                for pat in [format!("{a}{b}{a}"), format!("{a}{a}{b}{a}"), format!("{a}{b}{a}{b}"), format!("{a}{b}{b}{a}{a}"), format!("x{a}{b}{a}y")] {
+                    check_encode(tb, &pat, "repeat-across-switch", &mut p);
+                }
+            }
+        }
+        ctx.merge(p);
+    }
     // ---- 8. homogeneous runs: n copies of one character (alone, after a short ASCII prefix, before an ASCII tail). The
     //         ratio of UTF-8 length to wire length is extreme for half-width katakana and the 0x80-0x9F punctuation ------
     {
